@@ -1113,7 +1113,7 @@ struct C08
                 fail(en + " target branchpoint is not in its own template");
             ++k;
         }
-        if (strict_init && t.is_TA && !t.dynamic) {
+        if (strict_init && t.is_TA) {
             bool ok = false;
             if (!(t.init == symbol_t{}))
                 for (auto& l : t.locations)
@@ -1136,9 +1136,10 @@ std::string check_c08(Document& doc, bool ok_no_errors)
             continue;  // LSC templates copy variables between templates by design; out of the property's scope
         c.templ(t, ok_no_errors);
     }
+    // (a dynamic template that was declared but never defined has no body at all, hence no initial location)
     for (auto* t : doc.get_dynamic_templates())
         if (t)
-            c.templ(*t, false);
+            c.templ(*t, ok_no_errors && t->is_defined);
     // the dynamic templates must be reachable: the accessor and the "has any" predicate describe the same list
     if (doc.has_dynamic_templates() != !doc.get_dynamic_templates().empty())
         return "the document says has_dynamic_templates()=" + std::to_string(doc.has_dynamic_templates()) + " but get_dynamic_templates() lists " +
